@@ -357,6 +357,28 @@ theorem ws_refused_no_join (cfg : Config) (s : St) (path : List Char) (code : Op
       · rw [ws_badcode cfg s path c ua remote hp (fun b t h => hex ⟨b, t, h⟩)]; exact ⟨rfl, rfl⟩
   · rw [ws_notfound cfg s path code ua remote hp]; exact ⟨rfl, rfl⟩
 
+/-- ... nor any admission record -/
+theorem ws_refused_info (cfg : Config) (s : St) (path : List Char) (code : Option Nat) (ua remote : String)
+    (h : ∀ n, (wsAdmit cfg s path code ua remote).2 ≠ .joined n) :
+    (wsAdmit cfg s path code ua remote).1.info = s.info := by
+  by_cases hp : (Path.route path).1 = "session".toList
+  · cases code with
+    | none => rw [ws_nocode cfg s path ua remote hp]
+    | some c =>
+      by_cases hex : ∃ b t, (TtlCode.step s.codes (.exchange c)).2 = .token b t
+      · obtain ⟨b, t, hout⟩ := hex
+        cases hpt : s.ptoks[t]? with
+        | none => rw [ws_notok cfg s path c ua remote b t hp hout hpt]; rfl
+        | some pt =>
+          by_cases hadm : admitCheck cfg s (String.ofList (Path.route path).2) pt = true
+          · exfalso
+            rw [ws_accept cfg s path c ua remote b t pt hp hout hpt hadm] at h
+            exact h _ rfl
+          · have hadm' : admitCheck cfg s (String.ofList (Path.route path).2) pt = false := by simpa using hadm
+            rw [ws_reject cfg s path c ua remote b t pt hp hout hpt hadm']; rfl
+      · rw [ws_badcode cfg s path c ua remote hp (fun b t h => hex ⟨b, t, h⟩)]; rfl
+  · rw [ws_notfound cfg s path code ua remote hp]
+
 /-- **without a matching live code nothing joins**: no code, an unknown or already used (removed) code,
     or an expired code never yields a member, and the hub is unchanged. -/
 theorem no_code_no_join (cfg : Config) (s : St) (path : List Char) (code : Option Nat) (ua remote : String)
